@@ -95,21 +95,27 @@ def run(ctx):
     ctx.ob("R17.3", "%s|shares-the-builder-routine" % O.key, ok and "deps::private_is_dirty" in ctx.cg.reachable([O.key]) and bool(deciders)
            and all("deps::is_dirty" in ctx.cg.reachable([k]) for k in deciders),
            where=O.span, detail="redo-ood and redo-ifchange's should_build both call deps::is_dirty (decision callback(s): %s)" % deciders)
-    # the vector judged is filled only on the is_target == true edge
+    # the vector judged is filled only on the is_target == true edge: a bool branch whose tested value *is* the answer
+    # of File::is_target (through `?`, moves, or a dispatching helper `Kind::Target.matches(f)` that was spliced in -
+    # over feasible paths the other arms of such a dispatch on a constant are not code of this command), and every
+    # push lies behind its true edge
+    from core import FA
+    ofa = FA.of(O)
     pushes = oba.calls(r"alloc::vec::Vec::push")
     ok = False
-    if ist and pushes:
-        # is_target returns Result<bool>: the bool switch after `?`
-        for sw in sorted(oba.live):
-            bs = oba.bool_switch(sw)
-            if bs and any(oba.dominates(c, sw) for (_, _, _, c) in ist) or (bs and any(oba.dominates(i, sw) for i in oba.calls(r"state::File::is_target"))):
-                if all(oba.edge_dominates((sw, bs[0]), p) for p in pushes):
-                    ok = True
-    if not ist:
-        for sw in sorted(oba.live):
-            bs = oba.bool_switch(sw)
-            if bs and any(oba.dominates(i, sw) for i in oba.calls(r"state::File::is_target")) and pushes and all(oba.edge_dominates((sw, bs[0]), p) for p in pushes):
-                ok = True
+    for sw in sorted(oba.live):
+        t = O.blocks[sw]["term"]
+        if t["t"] != "switch" or t["discr_ty"] != "bool" or O.is_cleanup(sw):
+            continue
+        pl = op_place(t["discr"])
+        if pl is None or pl["p"]:
+            continue
+        org = [o for o in common.value_origins(O, pl["l"]) if o[1] is None or o[1] in ofa.live]
+        if not org or not all(o[0] in ("call", "callpay") and call_matches(o[2], r"state::File::is_target") for o in org):
+            continue
+        true_t = t["otherwise"]
+        if pushes and all(ofa.edge_dominates((sw, true_t), p) for p in pushes):
+            ok = True
     ctx.ob("R17.3", "%s|judges-exactly-the-targets" % O.key, ok, where=O.span, detail="only records with is_target() == true are collected and judged" if ok else "ood does not restrict itself to is_target records")
 
     from rules import dirt
